@@ -370,6 +370,14 @@ fn parse_pi<'input>(s: &mut Stream<'input>, events: &mut impl XmlEvents<'input>)
     let start = s.pos();
     s.advance(2);
     let target = s.consume_name()?;
+    // The target must be separated from the content by a whitespace.
+    if !s.starts_with_space() && !s.starts_with(b"?>") && !s.at_end() {
+        return Err(Error::InvalidChar2(
+            "a whitespace",
+            s.curr_byte_unchecked(),
+            s.gen_text_pos(),
+        ));
+    }
     s.skip_spaces();
     let content = s.consume_chars(|s, c| !(c == '?' && s.starts_with(b"?>")))?;
     let content = if !content.is_empty() {
